@@ -139,6 +139,24 @@ def plan_jp(tier, seed, props):
     return items
 
 
+def plan_mg(tier, seed, props):
+    q = tier == "quick"
+    items = []
+    for o in (MERGE, SETMERGE, MSETMERGE):
+        f = 1.0 if o is MERGE else 0.5
+        items += [item("obj_2", o, (0.4 if q else 1.0) * f, False), item("deep", o, (0.15 if q else 1.0) * f, False),
+                  item("nestarr_2", o, (0.1 if q else 0.6) * f, False), item("keyed_2", o, (0.4 if q else 1.0) * f, False),
+                  item("deepobj", o, (0.3 if q else 1.0) * f, False), item("scalarr_4_3", o, (0.05 if q else 0.3) * f, False)]
+        if not q:
+            items += [item("obj_3", o, 0.2 * f, False)]
+    return items
+
+
+def plan_mp(tier, seed, props):
+    q = tier == "quick"
+    return [dict(family="mergedocs", opts=NONE, frac=0.35 if q else 1.0, void=False, nf=False)]
+
+
 def followup_vary(sc, jdv, st, tr, tag, seed):
     """pass 2 of C10: TLC applies the variation operators to the real patches of pass 1"""
     out = sc.sub("vary-" + tag)
@@ -166,6 +184,10 @@ CHECKS = {
     "C10": dict(stages=[Stage("jp", "TraceJP", plan_jp, table="pointer", followup=followup_vary)], design=["MCJsonPatch"],
                 rule="session = one patch document (jd's own output, or a variation generated by the specification: shifted indices, "
                      "dropped hunks, dropped context tests, changed test/remove values, '-' appends) read by ReadPatchString and applied to targets"),
+    "C11": dict(stages=[Stage("mg", "TraceMerge", plan_mg)], design=["MCMerge"],
+                rule="session = one null-free (a,b), a != b, under MERGE / SET+MERGE / MULTISET+MERGE: RenderMerge text evaluated by the RFC 7386 function"),
+    "C12": dict(stages=[Stage("mp", "TraceMerge", plan_mp)], design=["MCMerge"],
+                rule="session = one merge patch document read by ReadMergeString and applied to every target of the family"),
     "C03": dict(stages=[Stage("pt", "TraceDP", plan_pt)], design=["MCPatch"],
                 rule="session = one list-mode diff with its sub-sequences applied to a, b and perturbed targets; "
                      "non-trivial = at least one target rejected and one accepted"),
